@@ -222,3 +222,15 @@ pub fn dh_write_stub(h: &mut std::hash::DefaultHasher, b: &[u8]) {
 pub fn dh_finish_stub(h: &std::hash::DefaultHasher) -> u64 {
     unsafe { *(h as *const std::hash::DefaultHasher as *const u64) }
 }
+
+// ---- model of HashMap::insert / clear for harness families in which the map is never read ---------
+pub static mut HM_INSERTS: usize = 0;
+pub fn hm_insert_count<K: Eq + Hash, V, S: BuildHasher, A: std::alloc::Allocator>(_m: &mut HashMap<K, V, S, A>, k: K, v: V) -> Option<V> {
+    std::mem::forget(k);
+    std::mem::forget(v);
+    unsafe { HM_INSERTS += 1 };
+    None
+}
+pub fn hm_clear_count<K, V, S, A: std::alloc::Allocator>(_m: &mut HashMap<K, V, S, A>) {}
+use std::collections::HashMap;
+use std::hash::{BuildHasher, Hash};
